@@ -80,7 +80,7 @@ func (c *Ctx) Count(name string, d int) {
 // Phase is one exploration pass over a scenario.
 type Phase struct {
 	Bound  int
-	Filter string // "" = deviations at every choice point; "restricted" = rendezvous/spawn/select/fs/rootLock class
+	Filter string // "" = deviations at every choice point; "restricted" = rendezvous/spawn/select/fs/rootLock class; "restricted+" = that plus the persister's and merger's lock acquisitions
 }
 
 // Scenario is a closed driver.
@@ -115,6 +115,11 @@ func restrictedFilter(c vrt.Choice) bool {
 		return true
 	}
 	return false
+}
+
+// restricted+ adds the lock acquisitions of the persister and the merger (their critical sections on the root).
+func restrictedPlusFilter(c vrt.Choice) bool {
+	return restrictedFilter(c) || strings.Contains(c.Label, "Lock@persister.go") || strings.Contains(c.Label, "Lock@merge.go")
 }
 
 type msg struct {
@@ -287,7 +292,9 @@ func worker(prop string, scenarios []Scenario) {
 	s := findScenario(scenarios, *fScenario)
 	tier := os.Getenv("VERIF_TIER")
 	ph := phases(s, tier)[*fPhase]
-	if ph.Filter == "restricted" {
+	if ph.Filter == "restricted+" {
+		vrt.DeviationFilter = restrictedPlusFilter
+	} else if ph.Filter == "restricted" {
 		vrt.DeviationFilter = restrictedFilter
 	}
 	outcomes := map[string]int{}
